@@ -651,7 +651,7 @@ PROPS = {
         "module": "DnsModel.Theorems.C10", "theorems": ["Dns.C10.insert_size_limit", "Dns.C10.insert_failure_plain", "Dns.C10.insert_too_large", "Dns.C10.delete_void_unchanged", "Dns.C10.set_name_invalid", "Dns.C10.set_name_arg_total", "Dns.C10.set_name_void", "Dns.C10.set_ip_failure", "Dns.C10.rename_failure", "Dns.C10.set_name_too_large"],
         "families": [{"name": "script-big", "quick": 0, "thorough": 0, "fixed": True}, {"name": "script-fail", "quick": 2500, "thorough": 100000}, {"name": "script", "quick": 500, "thorough": 20000}],
         "oracle": oracle_c10, "nontrivial": lambda c, a: "err:" in a, "shrink": False,
-        "rule": "scripts biased to failing arguments (ill-formed / over-long names, tombstone cursors, malformed and out-of-range record texts, second question, overflowing renames); non-trivial = distinct scripts in which at least one operation failed",
+        "rule": "scripts biased to failing arguments (ill-formed / over-long names, tombstone cursors, malformed and out-of-range record texts, second question, overflowing renames), exact-limit sweeps (8192 +- for insertions, also on packets whose OPT advertises 512..65535 bytes; 65535 +- for owner growth); non-trivial = distinct scripts in which at least one operation failed",
         "level": "proof",
         "explanation": "theorems: for every object (any size, compressed or not), section and record bytes a successful insert_rr leaves at most 8192 bytes, and a packet that would exceed the limit is refused with PacketTooLarge; on a pointer-free object every failing insert_rr (too large, second question, 65535 records) returns the object given; delete / set_raw_name through the cursor of a deleted record report VoidRecord and return object and cursor as they were; an invalid or over-long name is refused by the (total) checker before any byte moves; set_rr_ip with the wrong family or on a non-address record returns the object unchanged; a rename that overflows a name returns the object unchanged; set_raw_name with a name that would push the packet past 65535 bytes reports PacketTooLarge and only empties the question cache. An unchanged object trivially still satisfies C08. "
                        "correspondence: scripts biased to failing arguments and packets around/beyond 8192 and 65535 bytes; after every failed call the decoded message and the object view must equal those before",
@@ -661,7 +661,7 @@ PROPS = {
         "module": "DnsModel.Theorems.C11", "theorems": ["Dns.C11.walk_delete", "Dns.C11.second_delete", "Dns.C11.delete_void_untouched", "Dns.C11.emptied_absent", "Dns.C11.still_accepted", "Dns.C11.plain_of_accepted", "Dns.C11.first_delete", "Dns.C11.walk_delete_parsed", "Dns.C11.walk_delete_skipping_opt", "Dns.delWalkSkip_refines", "Dns.delWalk_refines", "Dns.delWalk_fresh_refines", "Dns.PlainObj.delete_at", "Dns.absWalk_terminates", "Dns.absWalk_sublist", "Dns.absWalk_deleted_gone", "Dns.absWalk_yields_survivors", "Dns.absWalk_perm"],
         "families": [{"name": "delete-walks", "quick": 0, "thorough": 0, "fixed": True}],
         "oracle": oracle_c11, "nontrivial": lambda c, a: "delete" in c, "shrink": False,
-        "rule": "every subset of the records of a section of size 0..5 deleted from within one walk, for the three record sections and the question, pointer-free and compressed, OPT absent/first/last; exhaustive in both tiers",
+        "rule": "every subset of the records of a section of size 0..5 deleted from within one walk, for the three record sections and the question, pointer-free and compressed, OPT absent/first/last; walks over all four sections in one script in all 24 orders (question deleted first / last / in between), a question-less packet built from empty(); exhaustive in both tiers",
         "level": "proof",
         "explanation": "theorems: on every pointer-free packet object (what decompression, recompute or insertion leave for any accepted packet: plain_of_accepted), for each of the three record sections, for the public walk (OPT-skipping next() in answer/authority, OPT-including in all three) and every stream of delete/keep choices, the walk-and-delete run of the model terminates within (n+1)^2+n+1 steps without error or panic and refines an abstract list machine (delWalk_refines): each deletion removes exactly the record under the cursor and lowers exactly that section's count (PlainObj.delete_at), a second deletion through the same cursor reports VoidRecord and changes nothing, a deleted record is never yielded again, every survivor is yielded at least once, afterwards the section holds exactly the survivors in original order with matching count and an emptied section reads as absent, other sections / question / other header fields untouched, and the bytes are accepted by the parser with the section starts the object holds. The first deletion on a still-flagged (possibly compressed) object is first_delete: decompress, carry the cursor, delete exactly that record. "
                        "correspondence: exhaustive deletion walks (all subsets, sizes 0..5, four sections, two layouts, OPT absent/first/last) on the real iterators vs the model vs the walk oracle",
@@ -708,14 +708,14 @@ PROPS = {
         "module": "DnsModel.Theorems.C17", "theorems": ["Dns.C17.session"],
         "families": [{"name": "session", "quick": 400, "thorough": 20000}],
         "oracle": oracle_c17, "nontrivial": lambda c, a: " ok " in a, "shrink": False,
-        "rule": "sessions of 2-7 calls (parse, uncompress, compress, rename, synth; one call repeated): each alone on a fresh thread, all back to back twice on one thread, all concurrently on 4 threads in rotated orders; outputs compared byte for byte with each other and with the model",
+        "rule": "sessions of 2-7 calls (parse, uncompress, compress, rename, synth; one call repeated, near-duplicates differing only in ASCII case or one field placed side by side): each alone on a fresh thread, all back to back twice on one thread, all concurrently on 4 threads in rotated orders; outputs compared byte for byte with each other and with the model",
         "level": "other", "explanation": "", "assumptions": [],
     },
     "C18": {
         "module": "DnsModel.Theorems.C18", "theorems": ["Dns.C18.steps_linear", "Dns.C18.erasure"],
         "families": [{"name": "steps-adversarial", "quick": 0, "thorough": 0, "fixed": True}, {"name": "steps", "quick": 3000, "thorough": 300000}],
         "oracle": oracle_c18, "nontrivial": nontrivial_parse_steps if False else (lambda c, a: True),
-        "rule": "C01's packet stream plus families built to maximise work (chains 1..17 deep x tail labels x up to 400 records; 1000 SOA records naming a 255-byte name three times through pointers; 16000 options; lying counts); the hook's counter must equal the model's count and stay under the bound",
+        "rule": "C01's packet stream plus families built to maximise work (chains 1..17 deep x tail labels x up to 400 records; 1000 SOA records naming a 255-byte name three times through pointers; 16000 options; labels interleaved with pointer runs; lying counts); the hook's counter must equal the model's count and stay under the bound",
         "level": "proof", "explanation": "", "assumptions": [],
     },
     "C12": {
